@@ -4,8 +4,15 @@ Programs of the model's `prog` language are compiled to Python source with real 
 real Manager over the fake session of tools/harness/fakesession_rpc.py whose scripted server answers the n-th request with
 the n-th entry of an answer script.  Compared: the server-side request log (operation + datastore read from the request
 XML with xml.etree) and the caller-visible outcome against the extracted model; and, independently, the property
-sentence evaluated on the interleaved log of requests and body start/end marks."""
+sentence evaluated on the interleaved log of requests and body start/end marks.
+Round 6: (a) an answer-script entry may be a reply SHAPE (children of each rpc-error missing / EMPTY / white space only /
+padded / unknown / reordered, pretty-printed replies, several rpc-errors, <ok/> next to a warning) - the model then gets the
+reply TREES (read with xml.etree) and computes the rpc-errors itself (RpcErrors.parse_errors); (b) `areq` statements:
+ASYNCHRONOUS requests whose RPC object the program drops (or keeps), run on the threaded session of
+tools/harness/asyncsession_rpc.py (the library's own Session.run loop) whose in-order server holds the replies back and
+delivers them later, at pump points chosen by the case, with gc.collect() before and after."""
 import json, itertools, os
+import xml.etree.ElementTree as ET
 
 ID = 'C13'
 COQ_ROOTS = ['Props/C13.v', 'GenProps/RpcErrors_consts.v', 'GenProps/LockCtx_consts.v']
@@ -13,12 +20,21 @@ RULE = ('programs over Ret | Raise | Req(lock/unlock/get-config, datastore) | Se
         'real with-blocks; every program of size <= N over the alphabet {pass, raise, get-config} x {locked(running), '
         'locked(candidate), try} x Seq (Seq right-nested, the semantics being associative) is run against every answer '
         'script over {ok, error, warning} for the requests it makes: all scripts for N <= 3 (quick) / 4 (thorough), scripts with '
-        'at most 2 (quick) / 3 (thorough) non-ok answers for N <= 5, at most 2 for N = 6 (thorough: all programs; quick: 250 '
+        'at most 2 (quick) / 3 (thorough) non-ok answers for N <= 5, at most 2 for N = 6 (thorough: all programs; quick: 100 '
         'sampled) and 2000 sampled programs of size 7 (thorough); manager mode ALL; plus random '
         'programs up to size 14 with explicit lock/unlock requests, four datastore names, modes NONE/ERRORS/ALL, answers '
         'incl. warning+error and exempt messages with a user exempt pattern. A case is (program, answer script, mode, '
-        'patterns); non-trivial = contains a Locked.')
-ASSUMES = ['the n-th request of a session is answered from the n-th script entry (the server oracle of the model is a function of the '
+        'patterns); non-trivial = contains a Locked. Reply shapes: every shape of a 40-odd alphabet (warning / error / mixed x '
+        'children empty, white-space-only, padded, missing, unknown, reordered, pretty-printed, two errors, <ok/>+warning) at '
+        'every request position of 9 small programs, every pair (lock shape, unlock shape) for `with locked: pass`, random '
+        'shapes in the random block. Asynchronous bodies: every body of <= 3 statements over {pass, raise, get-config, '
+        'areq(manager async_mode, dropped), areq(RPC object, dropped), areq(kept)} inside one or two lock contexts x '
+        'delivery schedules (reply held until the next synchronous request / delivered right after the request / all) x '
+        'answer faults, on a threaded session with a garbage collection between statements; plus random ones.')
+ASSUMES = ['a severity is "error" when its text is exactly `error` (C06 reading; a padded severity, which the schema does not allow, is none)',
+           'the server answers in the order of the requests (RFC 6241 pipelining): the reply to an asynchronous request never '
+           'arrives after the reply to a later synchronous one',
+           'the n-th request of a session is answered from the n-th script entry (the server oracle of the model is a function of the '
            'request history; a script is one such function)',
            '"the lock request is answered with an error" is read through C06: the reply makes Lock raise under RaiseMode.ERRORS']
 TRUSTED = ['modelled, not verified: the with-statement protocol of CPython (__enter__/__exit__, exception propagation), lxml']
@@ -29,9 +45,11 @@ ANS = {'ok': [], 'err': [('error', 'e')], 'warn': [('warning', 'w')], 'we': [('w
        'ex': [('error', 'Exempt me')], 'ew': [('error', 'e'), ('warning', 'w')], 'abs': [(None, 'nosev')]}
 
 # ------------------------------------------------------------------ programs
+# ('areq', kind, datastore, how): an asynchronous request; how 0 = through the manager switched to async_mode, result
+# dropped; 1 = an RPC object built with async_mode=True, dropped; 2 = through the manager, the RPC object is kept
 def size(p):
     k = p[0]
-    if k in ('ret', 'raise', 'req'): return 1
+    if k in ('ret', 'raise', 'req', 'areq'): return 1
     if k == 'seq': return 1 + size(p[1]) + size(p[2])
     if k == 'locked': return 1 + size(p[2])
     return 1 + size(p[1])
@@ -41,8 +59,24 @@ def has_req(p):
     if k == 'req': return True
     if k in ('seq',): return has_req(p[1]) or has_req(p[2])
     if k == 'try': return has_req(p[1])
-    if k in ('ret', 'raise'): return False
+    if k in ('ret', 'raise', 'areq'): return False
     return has_req(p[2])
+
+def count_areq(p):
+    k = p[0]
+    if k == 'areq': return 1
+    if k == 'seq': return count_areq(p[1]) + count_areq(p[2])
+    if k == 'try': return count_areq(p[1])
+    if k == 'locked': return count_areq(p[2])
+    return 0
+
+def has_areq(p):
+    k = p[0]
+    if k == 'areq': return True
+    if k == 'seq': return has_areq(p[1]) or has_areq(p[2])
+    if k == 'try': return has_areq(p[1])
+    if k == 'locked': return has_areq(p[2])
+    return False
 
 def has_locked(p):
     k = p[0]
@@ -76,18 +110,19 @@ def progs_of_size(n):
     _BY_SIZE[n] = out
     return out
 
-def random_prog(rng, n):
+def random_prog(rng, n, areq=False):
     if n <= 1:
         r = rng.random()
+        if areq and rng.random() < 0.4: return ('areq', rng.choice([0, 1, 2, 2]), rng.choice(DATASTORES), rng.choice([0, 0, 1, 1, 2]))
         if r < 0.25: return ('ret',)
         if r < 0.5: return ('raise', rng.randrange(1, 4))
         return ('req', rng.choice([0, 1, 2, 2]), rng.choice(DATASTORES))
     r = rng.random()
-    if r < 0.45: return ('locked', rng.choice(DATASTORES), random_prog(rng, n - 1))
-    if r < 0.6: return ('try', random_prog(rng, n - 1))
-    if n < 3: return random_prog(rng, 1)
+    if r < 0.45: return ('locked', rng.choice(DATASTORES), random_prog(rng, n - 1, areq))
+    if r < 0.6: return ('try', random_prog(rng, n - 1, areq))
+    if n < 3: return random_prog(rng, 1, areq)
     a = rng.randrange(1, n - 1)
-    return ('seq', random_prog(rng, a), random_prog(rng, n - 1 - a))
+    return ('seq', random_prog(rng, a, areq), random_prog(rng, n - 1 - a, areq))
 
 def enc_prog(p):
     k = p[0]
@@ -96,6 +131,7 @@ def enc_prog(p):
     if k == 'req': return [2, p[1], p[2].encode()]
     if k == 'seq': return [3, enc_prog(p[1]), enc_prog(p[2])]
     if k == 'locked': return [4, p[1].encode(), enc_prog(p[2])]
+    if k == 'areq': return [6, p[1], p[2].encode()]
     return [5, enc_prog(p[1])]
 
 def tup(p):
@@ -103,7 +139,7 @@ def tup(p):
 
 # ------------------------------------------------------------------ compile to Python source
 def compile_prog(p):
-    """Source of `def main(m, L, BodyErr)`; each Locked becomes a real `with m.locked(t):` block inside its own
+    """Source of `def main(m, L, BodyErr, env)`; each Locked becomes a real `with m.locked(t):` block inside its own
     function (CPython allows only 20 statically nested blocks), instrumented with marks in the log L."""
     funcs, counter = [], [0]
     def stmts(p, ind, out):
@@ -115,6 +151,19 @@ def compile_prog(p):
             if p[1] == 0: out.append(pad + 'm.lock(target=%r)' % p[2])
             elif p[1] == 1: out.append(pad + 'm.unlock(target=%r)' % p[2])
             else: out.append(pad + 'm.get_config(source=%r)' % p[2])
+        elif k == 'areq':
+            arg = '%s=%r' % ('source' if p[1] == 2 else 'target', p[2])
+            if p[3] == 1:      # an RPC object used directly; nothing keeps it
+                call = 'env.ops[%d](env.session, env.dh, async_mode=True, raise_mode=m.raise_mode).request(%s)' % (p[1], arg)
+            else:
+                call = 'm.%s(%s)' % ({0: 'lock', 1: 'unlock', 2: 'get_config'}[p[1]], arg)
+                if p[3] == 2: call = 'env.kept.append(%s)' % call
+            if p[3] == 1:
+                out += [pad + 'env.hold()', pad + 'try:', pad + '    ' + call, pad + 'finally:', pad + '    env.pump_next()']
+            else:
+                out += [pad + 'env.hold()', pad + '_am = m.async_mode', pad + 'm.async_mode = True',
+                        pad + 'try:', pad + '    ' + call,
+                        pad + 'finally:', pad + '    m.async_mode = _am', pad + '    env.pump_next()']
         elif k == 'seq':
             stmts(p[1], ind, out); stmts(p[2], ind, out)
         elif k == 'try':
@@ -141,7 +190,7 @@ def compile_prog(p):
             out.append(pad + 'ctx_%d()' % cid)
     body = []
     stmts(p, 1, body)
-    return 'def main(m, L, BodyErr):\n' + '\n'.join(funcs) + ('\n' if funcs else '') + '\n'.join(body) + '\n'
+    return 'def main(m, L, BodyErr, env=None):\n' + '\n'.join(funcs) + ('\n' if funcs else '') + '\n'.join(body) + '\n'
 
 _CODE = {}
 def compiled(p):
@@ -180,8 +229,61 @@ def body_exc_class(code):
 BodyErr.pick = staticmethod(body_exc_class)
 
 def answer_errors(a, i):
-    """entry of an answer script -> list of (severity, message); messages carry the request index"""
+    """entry of an answer script (a name of ANS) -> list of (severity, message); messages carry the request index"""
     return [(s, '%s%d' % (m, i)) for s, m in ANS[a]]
+
+# ---- reply shapes.  A script entry is a name of ANS or ['sh', pp, ok, [rpc-error...]] with rpc-error = [[child, text]...]:
+# child = local name (base namespace; 'v:x' = element x of a vendor namespace), text None = EMPTY element <child/>,
+# '' = <child></child>, '@' in a text = the request index; the text of error-info is an XML fragment; pp = pretty-printed
+# (line breaks and indentation between the elements); ok = an <ok/> child in front (only generated next to warnings).
+BASE_NS = 'urn:ietf:params:xml:ns:netconf:base:1.0'
+QN = lambda l: '{%s}%s' % (BASE_NS, l)
+
+def is_shape(a):
+    return not isinstance(a, str)
+
+def xml_escape(t):
+    return t.replace('&', '&amp;').replace('<', '&lt;').replace('>', '&gt;')
+
+def render_child(name, text, i):
+    ns = ''
+    if name.startswith('v:'): ns = ' xmlns:v="urn:vendor:ext"'
+    if text is None: return '<%s%s/>' % (name, ns)
+    text = text.replace('@', str(i))
+    return '<%s%s>%s</%s>' % (name, ns, text if name == 'error-info' else xml_escape(text), name)
+
+def render_body(a, i, op, nscript=0):
+    """the children of <rpc-reply> for script entry a given to the i-th request"""
+    if not is_shape(a):
+        errs = answer_errors(a, i)
+        if not errs: return '<data/>' if op == 'get-config' else '<ok/>'
+        # RFC 6241 7.5: a lock-denied error names the holder's session, 0 for a holder that is no NETCONF session
+        info = INFO[(i + nscript) % len(INFO)]
+        return ''.join('<rpc-error><error-type>protocol</error-type><error-tag>lock-denied</error-tag>%s<error-message>%s</error-message>%s</rpc-error>'
+                       % ('' if s is None else '<error-severity>%s</error-severity>' % s, m, info) for s, m in errs)
+    _, pp, ok, errs = a
+    nl, nl2 = ('\n  ', '\n    ') if pp else ('', '')
+    out = (nl + '<ok/>') if ok else ''
+    for e in errs:
+        out += nl + '<rpc-error>' + ''.join(nl2 + render_child(n, t, i) for n, t in e) + nl + '</rpc-error>'
+    return out + ('\n' if pp else '')
+
+def read_reply(xml):
+    """the independent reader (xml.etree) on a reply as sent: (has <ok/>, [(severity, message) per rpc-error], tree)"""
+    root = ET.fromstring(xml.encode('utf-8'))
+    errs = []
+    for e in root.iter(QN('rpc-error')):
+        sev = msg = None
+        for k in e:
+            if k.tag == QN('error-severity'): sev = k.text
+            elif k.tag == QN('error-message'): msg = k.text
+        errs.append((sev, msg))
+    return any(k.tag == QN('ok') for k in root), errs, root
+
+def node_val(e):
+    """a tree for the model runner (Glue/C13_glue.v fn 2)"""
+    return [e.tag.encode(), [[k.encode(), v.encode()] for k, v in sorted(e.attrib.items())],
+            [e.text.encode()] if e.text is not None else [], b'', [node_val(k) for k in e]]
 
 def o_exempt(pats, msg):
     import re
@@ -198,45 +300,82 @@ def refusing(errs, pats):
 
 INFO = ['', '<error-info><session-id>0</session-id></error-info>', '<error-info><session-id>12</session-id></error-info>',
         '<error-info><session-id> 0 </session-id></error-info>', '<error-info><session-id>00</session-id><bad-element>x</bad-element></error-info>']
-_ENV = {}
-def _env(mode, pats):
-    """One Manager over one fake session per (mode, patterns); the scripted server reads its per-run state from `st`."""
-    key = (mode, tuple(pats))
-    if key in _ENV: return _ENV[key]
-    from ncclient import manager
-    from harness.fakesession_rpc import make_session, parse_request, BASE
-    st = dict(L=None, n=0, script=[])
+
+def make_server(st, pats):
+    """The scripted peer: answers the n-th request of a run from the n-th script entry, logs (operation, datastore) read
+    from the request and - from the reply it is about to send, read back with xml.etree - whether that reply is an error
+    answer in the sense of the property (`refusing`)."""
+    from harness.fakesession_rpc import parse_request, BASE
     def server(msg):
         mid, op, tgt = parse_request(msg)
         i = st['n']; st['n'] += 1
         script = st['script']
-        errs = answer_errors(script[i], i) if i < len(script) else []
-        st['L'].append(('req', op, tgt, refusing(errs, pats)))
-        if errs:
-            # RFC 6241 7.5: a lock-denied error names the holder's session, 0 for a holder that is no NETCONF session
-            info = INFO[(i + len(script)) % len(INFO)]
-            body = ''.join('<rpc-error><error-type>protocol</error-type><error-tag>lock-denied</error-tag>%s<error-message>%s</error-message>%s</rpc-error>'
-                           % ('' if s is None else '<error-severity>%s</error-severity>' % s, m, info) for s, m in errs)
+        a = script[i] if i < len(script) else 'ok'
+        reply = '<rpc-reply xmlns="%s" message-id="%s">%s</rpc-reply>' % (BASE, mid, render_body(a, i, op, len(script)))
+        if is_shape(a):
+            has_ok, errs, _ = read_reply(reply)
+            ref = (not has_ok) and refusing(errs, pats)
         else:
-            body = '<data/>' if op == 'get-config' else '<ok/>'
-        return ['<rpc-reply xmlns="%s" message-id="%s">%s</rpc-reply>' % (BASE, mid, body)]
-    dh = manager.make_device_handler(None, list(pats))
-    s = make_session(dh, server)
+            ref = refusing(answer_errors(a, i), pats)
+        st['L'].append(('req', op, tgt, ref))
+        st['replies'].append(reply)
+        return [reply]
+    return server
+
+_DH = {}
+def device_handler(pats):
+    key = tuple(pats)
+    if key not in _DH:
+        from ncclient import manager
+        _DH[key] = manager.make_device_handler(None, list(pats))
+    return _DH[key]
+
+_ENV = {}
+def _env(mode, pats):
+    """One Manager over one synchronous fake session per (mode, patterns); the scripted server reads its per-run state from `st`."""
+    key = (mode, tuple(pats))
+    if key in _ENV: return _ENV[key]
+    from ncclient import manager
+    from harness.fakesession_rpc import make_session
+    st = dict(L=None, n=0, script=[], replies=[])
+    dh = device_handler(pats)
+    s = make_session(dh, make_server(st, pats))
     m = manager.Manager(s, dh, raise_mode=mode)
     _ENV[key] = (m, st)
     return _ENV[key]
 
+WIRE_TIMEOUT = 3        # seconds a synchronous request waits on the threaded session (a lost reply is a failure, not a hang)
+def _wire_env(mode, pats, case):
+    """A fresh threaded session (tools/harness/asyncsession_rpc.py) + Manager for ONE run."""
+    from ncclient import manager
+    from ncclient.operations import Lock, Unlock, GetConfig
+    from harness.asyncsession_rpc import AsyncEnv
+    st = dict(L=None, n=0, script=[], replies=[])
+    dh = device_handler(pats)
+    env = AsyncEnv(dh, make_server(st, pats), coalesce=bool(case.get('coalesce')))
+    env.ops = {0: Lock, 1: Unlock, 2: GetConfig}
+    env.schedule = list(case.get('deliver') or [])
+    m = manager.Manager(env.session, dh, timeout=WIRE_TIMEOUT, raise_mode=mode)
+    return m, st, env
+
+def on_wire(case):
+    return bool(case.get('wire')) or has_areq(case['prog'])
+
 def impl_run(case):
     from ncclient.operations import RPCError
     p, script, mode, pats = case['prog'], case['answers'], case['mode'], case['pats']
-    m, st = _env(mode, pats)
+    env = None
+    if on_wire(case): m, st, env = _wire_env(mode, pats, case)
+    else: m, st = _env(mode, pats)
     L = []
-    st['L'] = L; st['n'] = 0; st['script'] = script
+    st['L'] = L; st['n'] = 0; st['script'] = script; st['replies'] = []
     # an application that switched the manager to asynchronous mode earlier (to pipeline requests) and then enters a
-    # with-block: lock and unlock are synchronous whatever the manager's mode (only for programs that make no request of their own)
+    # with-block: lock and unlock are synchronous whatever the manager's mode (only for programs that make no SYNCHRONOUS
+    # request of their own: those would become asynchronous ones)
     m.async_mode = bool(case.get('async')) and not has_req(p)
+    sess = None
     try:
-        compiled(p)(m, L, BodyErr)
+        compiled(p)(m, L, BodyErr, env)
         res = ['normal']; exc = None
     except BodyErr as e:
         res = ['body', e.code]; exc = e
@@ -246,8 +385,9 @@ def impl_run(case):
         res = ['other', type(e).__name__, str(e)[:200]]; exc = e
     finally:
         m.async_mode = False
+        if env is not None: sess = env.finish()
     wire = [[op, tgt] for tag, op, tgt, *_ in [x for x in L if x[0] == 'req']]
-    return dict(wire=wire, result=res, log=L, exc=exc, n_requests=st['n'])
+    return dict(wire=wire, result=res, log=L, exc=exc, n_requests=st['n'], replies=st['replies'], session=sess)
 
 # ------------------------------------------------------------------ the property sentence on the log
 def check_property(case, im):
@@ -288,11 +428,26 @@ def check_property(case, im):
                 pass   # property silent: an unlock failure after a normal body (the model says: raised)
     if im['result'][0] == 'other':
         fails.append('program ended in unexpected %s: %s' % (im['result'][1], im['result'][2]))
+    se = im.get('session')
+    if se is not None:
+        # the threaded session: replies to the asynchronous requests of the bodies came in while / after the bodies ran
+        if se['stuck']:
+            fails.append('threaded session: %s' % '; '.join(se['stuck']))
+        if has_locked(case['prog']) and (se['errback'] or not se['connected']):
+            fails.append('the session did not survive the replies to the asynchronous requests of the with-bodies: connected=%s, error broadcast %r'
+                         % (se['connected'], se['errback']))
+        if se['kept_unanswered']:
+            fails.append('%d of %d asynchronous requests whose RPC object was kept never got their reply' % (se['kept_unanswered'], se['kept']))
     return fails
 
 # ------------------------------------------------------------------ model
-def model_call(case):
-    return [1, enc_prog(case['prog']), case['mode'], [x.encode() for x in case['pats']],
+def model_call(case, replies=None):
+    """fn 1: the rpc-errors of every answer as (severity, message); fn 2 (scripts with reply shapes): the reply TREES, read
+    with xml.etree from the replies as sent (requests beyond the script are answered <ok/>: no rpc-error, like a missing entry)"""
+    pr, pats = enc_prog(case['prog']), [x.encode() for x in case['pats']]
+    if any(is_shape(a) for a in case['answers']):
+        return [2, pr, case['mode'], pats, [node_val(read_reply(r)[2]) for r in replies]]
+    return [1, pr, case['mode'], pats,
             [[[[s.encode()] if s is not None else [], [m.encode()]] for s, m in answer_errors(a, i)] for i, a in enumerate(case['answers'])]]
 
 def dec_model(v):
@@ -310,17 +465,20 @@ def record(ctx, c, im, label):
     ctx.traces += 1
     ctx.hist('block', label); ctx.hist('impl_result', im['result'][0]); ctx.hist('n_requests', im['n_requests'])
     ctx.hist('lock_depth', lock_depth(c['prog'])); ctx.hist('faults', sum(1 for a in c['answers'] if a != 'ok'))
+    ctx.hist('shaped_answers', sum(1 for a in c['answers'] if is_shape(a)))
+    if im.get('session') is not None:
+        ctx.hist('threaded_session', 'async requests=%d' % count_areq(c['prog']))
     if ctx.evaluations % 9973 == 1: ctx.sample({'case': c, 'wire': im['wire'], 'result': im['result']})
     for what in check_property(c, im):
-        ctx.fail(c, what, sig=None, expected='property C13', actual=dict(wire=im['wire'], result=im['result']))
-    return (c, im['wire'], im['result'])
+        ctx.fail(c, what, sig=None, expected='property C13', actual=dict(wire=im['wire'], result=im['result'], session=im.get('session')))
+    return (c, im['wire'], im['result'], model_call(c, im['replies']))
 
 def compare_model(ctx, recs):
     if not ctx.model: return
     for k in range(0, len(recs), 20000):
         chunk = recs[k:k + 20000]
-        outs = ctx.model.batch([model_call(c) for c, _, _ in chunk])
-        for (c, wire, res), mo in zip(chunk, outs):
+        outs = ctx.model.batch([mc for _, _, _, mc in chunk])
+        for (c, wire, res, _), mo in zip(chunk, outs):
             mw, mr = dec_model(mo)
             if mw != wire or mr != res:
                 ctx.disagree(c, [mw, mr], [wire, res], 'LockCtx.exec vs real with-blocks (request log, outcome)',
@@ -328,6 +486,22 @@ def compare_model(ctx, recs):
 
 def evaluate(ctx, cases, label):
     compare_model(ctx, [record(ctx, c, impl_run(c), label) for c in cases])
+
+def evaluate_threaded(ctx, cases, label):
+    """Cases on the threaded session.  Its pumps call gc.collect() between the statements of a program: the (large,
+    permanent) heap of this process is kept out of those collections with gc.freeze(), renewed after every case."""
+    import gc
+    recs = []
+    gc.collect(); gc.freeze()
+    try:
+        for c in cases:
+            recs.append(record(ctx, c, impl_run(c), label))
+            gc.collect(); gc.freeze()
+    finally:
+        gc.unfreeze()
+        from harness import fakesession_wire
+        fakesession_wire.uninstall()
+    compare_model(ctx, recs)
 
 def explore(ctx, p, mode, pats, faults, max_faults, label, recs):
     """Every answer script for the requests the program actually makes, with at most `max_faults` answers other than ok
@@ -346,6 +520,161 @@ def explore(ctx, p, mode, pats, faults, max_faults, label, recs):
                 rec(full[:j] + [a], nf + 1)
     rec([], 0)
 
+# ------------------------------------------------------------------ reply shapes
+def shape_alphabet():
+    """A fixed alphabet of rpc-error reply shapes (name, entry).  Every entry is a LEGAL reply: RFC 6241 4.3 makes
+    error-app-tag / error-path / error-message / error-info optional, puts no constraint on their content, allows several
+    rpc-errors in one reply and unknown children inside error-info only - unknown / vendor children of rpc-error itself and
+    a padded severity are included because servers send them and the client must not fall over them."""
+    out = []
+    def typ(sev): return [['error-type', 'application'], ['error-tag', 'operation-failed' if sev == 'warning' else 'lock-denied']]
+    for sev in ('warning', 'error'):
+        c = sev[0]
+        S = ['error-severity', sev]; M = ['error-message', c + '@']
+        def add(name, errs, pp=0, ok=0): out.append(('%s:%s' % (sev, name), ['sh', pp, ok, errs]))
+        add('plain', [typ(sev) + [S, M]])
+        add('empty-path', [typ(sev) + [S, ['error-path', None], M]])
+        add('empty-app-tag', [typ(sev) + [S, ['error-app-tag', None], M]])
+        add('empty-message', [typ(sev) + [S, ['error-message', None]]])
+        add('empty-info', [typ(sev) + [S, M, ['error-info', None]]])
+        add('empty-type-tag', [[['error-type', None], ['error-tag', None], S, M]])
+        add('all-optional-empty', [typ(sev) + [S, ['error-app-tag', None], ['error-path', None], ['error-message', None], ['error-info', None]]])
+        add('empty-strings', [typ(sev) + [S, ['error-app-tag', ''], ['error-path', ''], ['error-message', '']]])
+        add('space-only', [typ(sev) + [S, ['error-app-tag', ' '], ['error-path', '\n      '], ['error-message', ' \t ']]])
+        add('padded-text', [[['error-type', '\n      application\n    '], ['error-tag', ' operation-failed '], S,
+                            ['error-path', '\n      /a/b\n    '], ['error-message', '\n      %s@ line one\n      line two\n    ' % c]]])
+        add('no-message', [typ(sev) + [S]])
+        add('severity-only', [[S]])
+        add('unknown-children', [typ(sev) + [['x-note', 'n'], S, ['v:detail', 'd'], ['v:flag', None], M]])
+        add('message-first', [[M] + typ(sev) + [['error-path', None], S]])
+        add('info-first', [[['error-info', '<session-id>0</session-id>'], S, ['error-app-tag', None]] + typ(sev) + [M]])
+        add('pretty', [typ(sev) + [S, M]], pp=1)
+        add('pretty-empty', [typ(sev) + [S, ['error-app-tag', None], ['error-path', None], M, ['error-info', None]]], pp=1)
+        add('markup-text', [typ(sev) + [S, ['error-path', "/a[b='<1>']"], ['error-message', c + '@ a<b & c>d']]])
+        add('two', [typ(sev) + [S, ['error-path', None], M], typ(sev) + [S, ['error-message', None], ['error-app-tag', None]]])
+        add('two-pretty', [[S, ['error-message', None]], typ(sev) + [S, ['error-path', None], M]], pp=1)
+    W = ['error-severity', 'warning']; E = ['error-severity', 'error']
+    def addm(name, errs, pp=0, ok=0): out.append(('mixed:' + name, ['sh', pp, ok, errs]))
+    addm('warning-then-error', [typ('warning') + [W, ['error-path', None], ['error-message', 'w@']], typ('error') + [E, ['error-app-tag', None], ['error-message', 'e@']]])
+    addm('error-then-warning', [typ('error') + [E, ['error-message', None]], typ('warning') + [W, ['error-path', None]]], pp=1)
+    addm('ok-and-warning', [typ('warning') + [W, ['error-path', None], ['error-message', 'w@']]], ok=1)
+    addm('ok-and-warning-pretty', [[W, ['error-message', None]]], pp=1, ok=1)
+    addm('no-severity', [typ('error') + [['error-message', 'n@'], ['error-path', None]]])
+    addm('empty-severity', [typ('error') + [['error-severity', None], ['error-message', 'n@']]])
+    addm('padded-severity', [typ('warning') + [['error-severity', '\n      warning\n    '], ['error-message', 'w@']]], pp=1)
+    addm('three-warnings', [[W], [W, ['error-message', None]], typ('warning') + [W, ['error-info', None]]])
+    return out
+
+def random_shape(rng):
+    n = rng.choice([1, 1, 1, 2, 3])
+    errs = []
+    for _ in range(n):
+        e = []
+        for name in ['error-type', 'error-tag', 'error-severity', 'error-app-tag', 'error-path', 'error-message', 'error-info']:
+            r = rng.random()
+            if name == 'error-severity':
+                if r < 0.08: continue
+                e.append([name, rng.choice(['warning'] * 6 + ['error'] * 5 + [None, '', ' error', 'warning\n', 'info'])])
+            elif name == 'error-message':
+                if r < 0.25: continue
+                e.append([name, rng.choice(['m@', 'm@', 'Exempt me @', ' m@ ', '\n    m@\n  ', None, '', '  ', 'a<b&c @'])])
+            elif name == 'error-info':
+                if r < 0.6: continue
+                e.append([name, rng.choice([None, '', '<session-id>0</session-id>', '<bad-element>x</bad-element><v:x xmlns:v="urn:v"/>', '\n  '])])
+            else:
+                if r < 0.4: continue
+                e.append([name, rng.choice([None, None, '', ' ', 'application', 'in-use', '\n   /a/b\n ', 'x@'])])
+        if rng.random() < 0.3: rng.shuffle(e)
+        if rng.random() < 0.2: e.insert(rng.randrange(len(e) + 1), [rng.choice(['x-note', 'v:detail']), rng.choice([None, 'u', ' '])])
+        errs.append(e)
+    warn_only = all(not any(c[0] == 'error-severity' and c[1] == 'error' for c in e) for e in errs)
+    return ['sh', int(rng.random() < 0.4), int(warn_only and rng.random() < 0.1), errs]
+
+SHAPE_PROGS = [('locked', 'running', ('ret',)), ('locked', 'candidate', ('raise', 1)), ('locked', 'running', ('req', 2, 'running')),
+               ('locked', 'running', ('locked', 'candidate', ('ret',))), ('locked', 'candidate', ('locked', 'running', ('raise', 2))),
+               ('try', ('locked', 'running', ('raise', 3))), ('seq', ('locked', 'running', ('ret',)), ('locked', 'candidate', ('ret',))),
+               ('seq', ('try', ('locked', 'candidate', ('req', 2, 'candidate'))), ('locked', 'startup', ('ret',))),
+               ('locked', 'x-store', ('try', ('req', 0, 'running')))]
+
+def shape_cases(rng, thorough):
+    al = shape_alphabet()
+    rng_base = rng.randrange(2)
+    cases = []
+    for p in SHAPE_PROGS:
+        for mode in ((0, 1, 2) if thorough else (2,)):
+            n = impl_run(dict(prog=p, answers=[], mode=mode, pats=[]))['n_requests']
+            for j in range(n):
+                for name, sh in al:
+                    cases.append(dict(prog=p, answers=['ok'] * j + [sh], mode=mode, pats=[]))
+    for k, ((_, a), (_, b)) in enumerate(itertools.product(al, al)):       # lock answer x unlock answer (quick: every other pair, alternating with the seed)
+        if not thorough and (k + k // len(al) + rng_base) % 2: continue
+        cases.append(dict(prog=SHAPE_PROGS[0], answers=[a, b], mode=2, pats=[]))
+    for _ in range(6000 if thorough else 400):             # shapes everywhere, exempt patterns
+        p = rng.choice(SHAPE_PROGS)
+        cases.append(dict(prog=p, answers=[rng.choice(al)[1] if rng.random() < 0.7 else rng.choice(['ok', 'err', 'warn']) for _ in range(5)],
+                          mode=rng.choice([0, 1, 2]), pats=rng.choice([[], ['exempt*'], ['w*'], ['*e1*', 'zz']])))
+    return cases
+
+# ------------------------------------------------------------------ asynchronous bodies
+ASTMTS = [('ret',), ('raise', 1), ('req', 2, 'running'), ('areq', 2, 'running', 0), ('areq', 2, 'candidate', 1), ('areq', 2, 'running', 2)]
+
+def seq_of(stmts):
+    p = stmts[-1]
+    for x in reversed(stmts[:-1]): p = ('seq', x, p)
+    return p
+
+def async_bodies(maxlen):
+    out = []
+    for n in range(1, maxlen + 1):
+        for st in itertools.product(ASTMTS, repeat=n):
+            if not any(x[0] == 'areq' for x in st): continue
+            if any(x[0] == 'raise' for x in st[:-1]): continue          # statements behind a raise never run
+            out.append(seq_of(list(st)))
+    return out
+
+def schedules(k):
+    """delivery schedules for k asynchronous requests: every request's pump releases 0 (held until the next synchronous
+    request - in a body without one, until the unlock: the reply arrives after the body ended), 1, or all held replies"""
+    return [list(x) for x in itertools.product([0, 1, 'all'], repeat=k)] if k <= 2 else [[0] * k, [1] * k, ['all'] * k, [0, 0, 'all'], [0, 1, 0], [0, 0, 1]]
+
+def async_cases(rng, thorough):
+    cases = []
+    shp = dict(shape_alphabet())
+    faults = [[], ['warn'], [shp['warning:all-optional-empty']], ['ok', 'err'], ['ok', 'ok', 'ok', 'err']]
+    bodies = async_bodies(3 if thorough else 2)
+    for b in bodies:
+        for wrap in (lambda x: ('locked', 'running', x), lambda x: ('locked', 'running', ('locked', 'candidate', x)),
+                     lambda x: ('seq', ('try', ('locked', 'candidate', x)), ('locked', 'running', ('ret',)))):
+            p = wrap(b)
+            for i, sc in enumerate(schedules(count_areq(b))):
+                fs = faults if thorough else [faults[(i + len(cases)) % len(faults)]]
+                for f in fs:
+                    cases.append(dict(prog=p, answers=list(f), mode=2, pats=[], deliver=sc, coalesce=(len(cases) % 3 == 0)))
+                    # the manager was switched to async_mode before the program and stays so (bodies without synchronous requests)
+                    if not has_req(p) and len(cases) % 4 == 1: cases[-1]['async'] = True
+    if not thorough:      # bodies of three statements: sampled
+        for b in rng.sample(async_bodies(3), 60):
+            k = count_areq(b)
+            cases.append(dict(prog=('locked', 'candidate', b), answers=list(rng.choice(faults)), mode=2, pats=[],
+                              deliver=rng.choice(schedules(k)), coalesce=rng.random() < 0.3))
+    for _ in range(3000 if thorough else 250):
+        p = random_prog(rng, rng.randrange(3, 12), areq=True)
+        if lock_depth(p) > 6 or not has_areq(p): continue
+        k = count_areq(p)
+        c = dict(prog=p, answers=[rng.choice(['ok', 'ok', 'ok', 'err', 'warn', 'we', 'ex']) if rng.random() < 0.8 else random_shape(rng)
+                                  for _ in range(rng.randrange(0, 10))],
+                 mode=rng.choice([0, 1, 2]), pats=rng.choice([[], [], ['exempt*']]),
+                 deliver=[rng.choice([0, 0, 1, 2, 'all']) for _ in range(k)], coalesce=rng.random() < 0.3)
+        if rng.random() < 0.3 and not has_req(p): c['async'] = True
+        cases.append(c)
+    # the same (synchronous) programs on both sessions: the threaded one agrees with the one that answers inside send()
+    for _ in range(2000 if thorough else 150):
+        p = random_prog(rng, rng.randrange(2, 10))
+        if lock_depth(p) > 6: continue
+        cases.append(dict(prog=p, answers=[rng.choice(['ok', 'ok', 'err', 'warn', 'we', 'ew']) for _ in range(rng.randrange(0, 8))],
+                          mode=rng.choice([0, 1, 2]), pats=[], wire=True))
+    return cases
+
 def corpus_cases():
     from vlib import paths
     d = os.path.join(paths.CORPUS, ID)
@@ -361,7 +690,7 @@ def run(ctx):
     thorough = ctx.tier == 'thorough'
     F = ['err', 'warn']
     # (size bound, max non-ok answers, sample size or None = every program of that size)
-    plan = ([(3, 99, None), (5, 2, None), (6, 2, 250)] if not thorough else
+    plan = ([(3, 99, None), (5, 2, None), (6, 2, 100)] if not thorough else
             [(4, 99, None), (5, 3, None), (6, 2, None), (7, 2, 2000)])
     done = {}
     recs = []
@@ -379,15 +708,18 @@ def run(ctx):
     compare_model(ctx, recs)
     ctx.exhaustive = True
     ctx.extra['exhaustive_scope'] = ('every program of size <= %d x every answer script over {ok,error,warning}; every program of size <= %d x every '
-                                     'script with <= %d non-ok answers%s' % ((3, 5, 2, '; 250 sampled programs of size 6 x <= 2 non-ok') if not thorough
+                                     'script with <= %d non-ok answers%s' % ((3, 5, 2, '; 100 sampled programs of size 6 x <= 2 non-ok') if not thorough
                                      else (4, 5, 3, '; every program of size 6 and 2000 sampled of size 7 x <= 2 non-ok')))
+    # reply shapes; asynchronous bodies on the threaded session
+    evaluate(ctx, shape_cases(rng, thorough), 'shapes')
+    evaluate_threaded(ctx, async_cases(rng, thorough), 'async')
     # random: bigger programs, explicit lock/unlock requests, all modes, richer answers, exempt patterns
     cases = []
-    for _ in range(3000 if ctx.tier == 'quick' else 40000):
+    for _ in range(2000 if ctx.tier == 'quick' else 40000):
         p = random_prog(rng, rng.randrange(2, 15))
         if lock_depth(p) > 6: continue
         k = rng.randrange(0, 12)
-        script = [rng.choice(['ok', 'ok', 'ok', 'err', 'warn', 'we', 'ex', 'ew', 'abs']) for _ in range(k)]
+        script = [rng.choice(['ok', 'ok', 'ok', 'err', 'warn', 'we', 'ex', 'ew', 'abs']) if rng.random() < 0.85 else random_shape(rng) for _ in range(k)]
         cases.append(dict(prog=p, answers=script, mode=rng.choice([0, 1, 2]), pats=rng.choice([[], [], ['exempt*'], ['*me*', 'zz']])))
         if rng.random() < 0.5 and not has_req(p): cases[-1]['async'] = True
     evaluate(ctx, cases, 'random')
@@ -400,12 +732,13 @@ def search(ctx, seeds):
             if not has_locked(p): continue
             for script in itertools.product(['ok', 'err', 'warn'], repeat=min(4, n)):
                 tries.append(dict(prog=p, answers=list(script), mode=2, pats=[]))
+    tries += shape_cases(rng, False)[:3000] + async_cases(rng, False)
     for _ in range(5000):
         p = random_prog(rng, rng.randrange(2, 12))
         tries.append(dict(prog=p, answers=[rng.choice(list(ANS)) for _ in range(rng.randrange(0, 10))], mode=rng.choice([0, 1, 2]),
                           pats=rng.choice([[], ['exempt*']])))
     for c in tries:
-        c = dict(c, prog=tup(c['prog']))
+        c = norm_case(c)
         try:
             fs = check_property(c, impl_run(c))
         except Exception as e:
@@ -415,7 +748,10 @@ def search(ctx, seeds):
     return None
 
 def norm_case(c):
-    return dict(prog=tup(c['prog']), answers=list(c['answers']), mode=c.get('mode', 2), pats=list(c.get('pats', [])))
+    d = dict(prog=tup(c['prog']), answers=list(c['answers']), mode=c.get('mode', 2), pats=list(c.get('pats', [])))
+    for k in ('async', 'deliver', 'coalesce', 'wire'):
+        if k in c: d[k] = c[k]
+    return d
 
 def reproduce(finding):
     c = norm_case(finding['witness'])
@@ -427,6 +763,11 @@ def replay(doc):
     fs = check_property(c, im)
     print('program  :\n' + compile_prog(c['prog']))
     print('answers  :', c['answers'], 'mode', c['mode'], 'patterns', c['pats'])
+    for i, r in enumerate(im['replies']):
+        if i < len(c['answers']) and is_shape(c['answers'][i]): print('reply %-3d:' % i, repr(r))
+    if im.get('session') is not None:
+        print('session  : threaded; delivery schedule', c.get('deliver'), 'coalesce', bool(c.get('coalesce')), '->', im['session'])
+    if c.get('async'): print('manager  : async_mode = True during the whole program')
     print('expected : property C13 (lock before body, exactly one unlock of the same datastore after it, body exception propagates, refused lock => no body, no unlock)')
     print('actual   : requests', im['wire'], 'outcome', im['result'])
     for f in fs: print('fails    :', f)
